@@ -94,6 +94,9 @@ fn main() {
         ("2^40 s", Duration::from_secs(1 << 40)),
         ("100 years", Duration::from_secs(100 * 365 * 86400)),
         ("u64::MAX ns", Duration::from_nanos(u64::MAX)),
+        ("2^55 s (a multiple of 2^64 ns)", Duration::from_secs(1 << 55)),
+        ("2^55 + 3 s", Duration::from_secs((1 << 55) + 3)),
+        ("2^64 ns + 1.5 us", Duration::new(18_446_744_073, 709_551_616 + 1_500)),
     ] {
         case!(format!("huge timeout {}: nothing panics, nothing is reported by poll", name), {
             let mut s = PollingParameterNumberMessageScanner::new(t);
